@@ -30,11 +30,23 @@ INFO = dict(
     technique="Lean 4 proof: (a) the PCA identities proved for every dimension over Mathlib matrices on Q from the "
               "eigen-decomposition contract, tied to the code by certificate checking of the returned factors "
               "against the exact rational covariance; (b) the n_active_components / trim_components / "
-              "orthonormalize_against_inplace state machine transcribed branch for branch (float form both in exact "
-              "arithmetic and on the float values the code itself computed) and proved invariant by induction over "
-              "every operation list, compared exactly with the real models on random histories incl. exact ties; "
-              "(c) PCAModel's object layer (template as_vector/from_vector, PointCloud and Image reshaping) modelled "
-              "and proved equal to the vector level, compared with the real objects' own arrays and landmarks",
+              "orthonormalize_against_inplace state machine (float form both in exact arithmetic and on the float "
+              "values the code itself computed) proved invariant by induction over every operation list, compared "
+              "exactly with the real models on random histories incl. exact ties; (c) PCAModel's object layer "
+              "(template as_vector/from_vector, PointCloud and Image reshaping) modelled and proved equal to the vector "
+              "level, compared with the real objects' own arrays and landmarks; (d) THE SOURCE TEXT of the working tree "
+              "is translated into Lean on every run (harness/py2lean2.py + harness/trans_c10.py, 69 definitions: "
+              "pca.py: n_components / n_active_components getter and setter (all branches, Python's dynamic typing of "
+              "`value` kept), trim_components, components getter / setter, eigenvalues, every variance / ratio "
+              "accessor, noise_variance, inverse_noise_variance, orthonormalize_against_inplace, _constructor_helper, "
+              "_data_to_matrix, the three constructors of PCAVectorModel and of PCAModel (calls bound to the callee's "
+              "live signature: positional / keyword / default arguments by parameter NAME); linear.py / vectorizable.py: "
+              "the __init__s, project / instance / reconstruct / project_out, their _vectors variants, "
+              "_instance_vectors_for_full_weights, component, whitened_components, project_whitened, once per class "
+              "through the live MRO; decomposition.py: "
+              "eigenvalue_decomposition, pca, pcacov) and every translated definition is PROVED equal to the Core "
+              "definition the theorems are about, for all arguments; the bookkeeping, spectrum and projection clauses "
+              "are then stated for the translated definitions themselves",
     level_text="(a) For all n, d, k: from `U U^T = 1`, `U C = diag(l) U` (what eigh promises, for the symmetrised "
                "covariance on the d<n path, for the Gram matrix plus the sqrt contract on the d>=n path) the rows are "
                "orthonormal eigen-rows of the sample covariance with the n-1 normaliser, each eigenvalue equals the "
@@ -56,12 +68,31 @@ INFO = dict(
                "the count away from ties; ratio accessors consistent.  (c) For every Vectorizable class satisfying "
                "the round-trip law (proved for the modelled PointCloud and Image reshaping): each object-level "
                "operation of PCAModel is from_vector of the vector-level one, carries the right object's non-vector "
-               "state, and satisfies the identities as objects.",
+               "state, and satisfies the identities as objects.  (d) For the definitions TRANSLATED from the source text: "
+               "translated setter = Core setActive on the value the Python argument stands for (python int, numpy int, "
+               "None for every state; python float: the clamped form on whatever the float evaluation of the two ratios "
+               "returned, for every state with n_active <= n_components), translated trim / components setter / "
+               "orthonormalize_against_inplace / accessors = the Core ones; the clamp min(count+1, n_components) is a "
+               "no-op in exact arithmetic on every reachable state; over every history of Python-level calls and ANY "
+               "rounding of the ratios the translated methods keep the reachable-state invariant, original variance, "
+               "variance accounting and count consistency; translated _constructor_helper + translated trim satisfy "
+               "trim = build up to pool order; every constructor of both classes builds `build rows eigenvalues "
+               "max_n_components` on the library's factors (PCAModel: n_samples = rows of the data matrix, template = "
+               "as_matrix' template); translated project / instance / reconstruct / project_out of the three classes = "
+               "the matrix definitions (all dimensions; PCA: on the ACTIVE components, weights padded, wrong weight "
+               "count raises) and satisfy the projection identities for orthonormal components; translated "
+               "eigenvalue_decomposition = Core postprocess of the zipped witness with threshold max(eps, n*machine "
+               "eps) for every witness (argsort + gathering = sorting the pairs), hence descending / positive / complete; "
+               "translated pca / pcacov = the plan (mean or zeros, d<n: X^T X else X X^T, n-1, symmetrise, "
+               "is_inverse=False, eps, transposition, Gram rescale) whatever the in-place / copy decisions.",
     level_note="Trusted: Lean kernel, propext/Classical.choice/Quot.sound, Mathlib; numpy.linalg.eigh / qr and numpy.sqrt "
                "enter the theorems as contracts and are certificate-checked numerically on every case; float "
                "rounding of matrix arithmetic is outside the model (inputs are small dyadic numbers, comparisons at "
                "1e-9); for the variance-fraction comparison the rounded values are *inputs* of the model (read from the "
-               "real object), so exact and near ties are followed exactly; the harness and the driver's parser.",
+               "real object), so exact and near ties are followed exactly; the harness and the driver's parser; the "
+               "source-to-Lean translator (harness/py2lean2.py, py2lean.py) and the C10 rule tables of "
+               "harness/trans_c10.py (which numpy / menpo expression stands for which Core operation; library calls "
+               "of the constructors and of pca / pcacov are symbolic: fields of Src.NP / Src.ND).",
     rule="a case is one data set (n in 3..12, d in 2..12, both sides of n = d, centred/uncentred, full rank or rank "
          "deficient, vector / PointCloud / single- or multi-channel Image backed, data or covariance constructor) with "
          "its probes (vector-level, object-level with tagged landmarks, accessors, Linear/MeanLinear twins), one "
@@ -74,9 +105,18 @@ INFO = dict(
              "equal eigenvalues (a degenerate spectrum) are excluded by the generators as the property text does "
              "('well-separated spectrum'); variance fractions AT a tie are generated and followed through the float "
              "values the code computed (model input), where the property text leaves the count open: the oracle "
-             "admits the two neighbouring counts there, and ValueError at fraction == kept ratio (1.0) - a rounding "
-             "robustness defect outside the property's clauses, patch in notes/fixes/C10-float-fraction-rounding.diff",
-             "increment (incremental PCA) belongs to C11; plotting and __str__ are not modelled"],
+             "admits the two neighbouring counts there, and ValueError within 1e-6 of the kept ratio (the guard "
+             "`value <= _total_variance_ratio()` is a float comparison); the count itself is clamped by the code "
+             "(fix adec1e3, translated and proved: genSetActive_float, repaired_float_never_raises)",
+             "pca / pcacov are translated as PLANS over symbolic arrays (which numpy operation on which operand in "
+             "which branch: genPca_eq / genPcacov_eq); that these numpy operations are the matrix operations of "
+             "Core/C10Linear (mean, centring, covariance / Gram matrix with n-1, symmetrisation, Gram rescale) is tied "
+             "by the `pca` certificate correspondence, not by a theorem; likewise the library calls of the "
+             "constructors (pca, pcacov, as_matrix, np.zeros) are symbolic",
+             "not translated (correspondence / oracle only): the object layer of PCAModel / VectorizableBackedModel (template.from_vector, instance.as_vector: "
+             "regenerated call table `delegates_ok`), LinearVectorModel.orthonormalize_inplace / "
+             "orthonormalize_against_inplace; increment (incremental PCA) belongs to C11; __setstate__, plotting and "
+             "__str__ are not modelled"],
     assumptions=["numpy.linalg.eigh returns orthonormal eigenvectors of the symmetric input (contract, checked "
                  "numerically per case)", "numpy.sqrt(x)**2 = x (contract of the Gram-path rescale, of "
                  "whitened_components and of component/normalized weights)",
@@ -84,7 +124,8 @@ INFO = dict(
                  "PointCloud / Image as_vector and from_vector are C-order ravel / reshape (modelled; compared with "
                  "the real objects' own arrays on every object-backed case; the law itself is property C05)"],
     design_ref="DESIGN.md section 6, C10")
-IMPORTS = ["MenpoModel.Props.C10", "MenpoModel.GenProps.C10"]
+IMPORTS = ["MenpoModel.Props.C10", "MenpoModel.GenProps.C10", "MenpoModel.GenProps.C10Src",
+           "MenpoModel.GenProps.C10SrcProps", "MenpoModel.GenProps.C10SrcLin", "MenpoModel.GenProps.C10SrcDec"]
 THEOREMS = [
     "MenpoModel.C10.mean_clause",
     "MenpoModel.C10.cov_path_identities",
@@ -135,6 +176,63 @@ THEOREMS = [
     "MenpoModel.C10.GenProps.dispatch_ok",
     "MenpoModel.C10.GenProps.delegates_ok",
     "MenpoModel.C10.GenProps.object_layer_resolution",
+    # Core-level facts the translated-source theorems rest on
+    "MenpoModel.C10.clamp_is_noop_in_exact_arithmetic",
+    "MenpoModel.C10.constructors_build",
+    # obligations over the SOURCE TEXT translated on every run (harness/trans_c10.py -> Generated/C10Src.lean):
+    # translated definition = Core definition, for all arguments
+    "MenpoModel.C10.GenProps.genFl_exact",
+    "MenpoModel.C10.GenProps.genNoiseVariance_eq",
+    "MenpoModel.C10.GenProps.genInverseNoiseVariance_eq",
+    "MenpoModel.C10.GenProps.genSetActive_eq",
+    "MenpoModel.C10.GenProps.genTrimComponents_eq",
+    "MenpoModel.C10.GenProps.genOrthoAgainst_eq",
+    "MenpoModel.C10.GenProps.genConstructorHelper_eq",
+    "MenpoModel.C10.GenProps.genVecInit_eq",
+    "MenpoModel.C10.GenProps.genVecFromCov_eq",
+    "MenpoModel.C10.GenProps.genVecFromComponents_eq",
+    "MenpoModel.C10.GenProps.genObjInit_eq",
+    "MenpoModel.C10.GenProps.genObjFromCov_eq",
+    "MenpoModel.C10.GenProps.genObjFromComponents_eq",
+    # the bookkeeping clauses for the translated methods themselves
+    "MenpoModel.C10.GenProps.genRun_eq",
+    "MenpoModel.C10.GenProps.src_reach",
+    "MenpoModel.C10.GenProps.src_original_variance_constant",
+    "MenpoModel.C10.GenProps.src_variance_accounting",
+    "MenpoModel.C10.GenProps.src_counts_consistent",
+    "MenpoModel.C10.GenProps.src_exact_float_is_model",
+    "MenpoModel.C10.GenProps.src_trim_eq_build_with_max",
+    "MenpoModel.C10.GenProps.src_pcamodel_init",
+    "MenpoModel.C10.GenProps.src_other_constructors",
+    # vector-level methods translated per class (Generated/C10SrcLin.lean)
+    "MenpoModel.C10.GenProps.genLinProject_eq",
+    "MenpoModel.C10.GenProps.genLinInstance_eq",
+    "MenpoModel.C10.GenProps.genLinReconstruct_eq",
+    "MenpoModel.C10.GenProps.genLinProjectOut_eq",
+    "MenpoModel.C10.GenProps.genMeanProject_eq",
+    "MenpoModel.C10.GenProps.genMeanInstance_eq",
+    "MenpoModel.C10.GenProps.genMeanReconstruct_eq",
+    "MenpoModel.C10.GenProps.genMeanProjectOut_eq",
+    "MenpoModel.C10.GenProps.genMeanComponent_eq",
+    "MenpoModel.C10.GenProps.genPcaProject_eq",
+    "MenpoModel.C10.GenProps.genPcaInstance_eq",
+    "MenpoModel.C10.GenProps.genPcaInstance_normalized_eq",
+    "MenpoModel.C10.GenProps.genPcaReconstruct_eq",
+    "MenpoModel.C10.GenProps.genPcaProjectOut_eq",
+    "MenpoModel.C10.GenProps.genPcaComponent_eq",
+    "MenpoModel.C10.GenProps.genPcaWhitenedComponents_eq",
+    "MenpoModel.C10.GenProps.genPcaProjectWhitened_eq",
+    "MenpoModel.C10.GenProps.genPcaProjectVectors_row",
+    "MenpoModel.C10.GenProps.genPcaReconstructVectors_eq",
+    "MenpoModel.C10.GenProps.genPcaProjectOutVectors_row",
+    "MenpoModel.C10.GenProps.src_identities",
+    # menpo/math/decomposition.py translated (Generated/C10SrcDec.lean)
+    "MenpoModel.C10.GenProps.sorted_witness",
+    "MenpoModel.C10.GenProps.genEigenvalueDecomposition_eq",
+    "MenpoModel.C10.GenProps.genEigenvalueDecomposition_sparse_eq",
+    "MenpoModel.C10.GenProps.genPca_eq",
+    "MenpoModel.C10.GenProps.genPcacov_eq",
+    "MenpoModel.C10.GenProps.src_spectrum",
 ]
 
 TOL = 1e-9
@@ -200,6 +298,13 @@ def gen_data(rng):
                                                                         "int32": 2 ** 31 - 8}.get(dt, 2 ** 62):
                 dt = "int64"
             case["dtype"] = dt
+        if case["ctor"] == "data" and "dtype" not in case and rng.random() < 0.25:
+            # the other documented ways to hand over the samples: a python list of vectors / an iterator of objects
+            # together with n_samples; the source may hold MORE than n_samples items, which must be ignored
+            # (`_data_to_matrix`: np.array(data)[:n_samples]; `as_matrix(samples, length=n_samples)`)
+            case["feed"] = "list" if kind == "vector" else "iter"
+            case["extra"] = [[rng.randint(-16, 16) / float(2 ** mexp) for _ in range(d)]
+                             for _ in range(rng.choice([0, 1, 2]))]
         if kind == "image":
             # (channels, height, width) with c*h*w = d: single- and multi-channel templates
             shapes = [(c, h, d // (c * h)) for c in (1, 2, 3) for h in (1, 2, 3) if d % (c * h) == 0]
@@ -366,19 +471,34 @@ def build_model(case, max_n=None):
             mod = PCAModel.init_from_covariance_matrix(Cf, tmpl, case["n"],
                                                        centred=case["centre"], max_n_components=max_n)
         return Adapter(mod, kind, shape)
+    feed = case.get("feed")
+    if feed:
+        X = np.vstack([X] + [np.array([r], dtype=float) for r in case.get("extra", [])])
     if kind == "vector":
-        mod = PCAVectorModel(X.copy(), centre=case["centre"], max_n_components=max_n, inplace=case["inplace"])
+        if feed == "list":
+            mod = PCAVectorModel([x.copy() for x in X], centre=case["centre"], n_samples=case["n"],
+                                 max_n_components=max_n, inplace=case["inplace"])
+        else:
+            mod = PCAVectorModel(X.copy(), centre=case["centre"], max_n_components=max_n, inplace=case["inplace"])
     elif kind == "pointcloud":
         from menpo.shape import PointCloud
         samples = [PointCloud(x.reshape(-1, 2).copy()) for x in X]
         set_tag(samples[0], TAG_TEMPLATE)                  # the first sample becomes the template
-        mod = PCAModel(samples, centre=case["centre"], max_n_components=max_n, inplace=case["inplace"])
+        if feed == "iter":
+            mod = PCAModel(iter(samples), centre=case["centre"], n_samples=case["n"], max_n_components=max_n,
+                           inplace=case["inplace"])
+        else:
+            mod = PCAModel(samples, centre=case["centre"], max_n_components=max_n, inplace=case["inplace"])
     else:
         from menpo.image import Image
         shape = image_shape(case)
         samples = [Image(x.reshape(shape).copy()) for x in X]
         set_tag(samples[0], TAG_TEMPLATE)
-        mod = PCAModel(samples, centre=case["centre"], max_n_components=max_n, inplace=case["inplace"])
+        if feed == "iter":
+            mod = PCAModel(iter(samples), centre=case["centre"], n_samples=case["n"], max_n_components=max_n,
+                           inplace=case["inplace"])
+        else:
+            mod = PCAModel(samples, centre=case["centre"], max_n_components=max_n, inplace=case["inplace"])
     return Adapter(mod, kind, shape)
 
 
@@ -694,6 +814,12 @@ def run_model_case(ctx, case, rng, cid, lines, expect):
     ctx.count("path:" + path)
     ctx.count("kind:" + case["kind"])
     ctx.count("ctor:" + case.get("ctor", "data"))
+    if case.get("feed"):
+        ctx.count("feed:%s+%d-extra" % (case["feed"], len(case.get("extra", []))))
+    if case.get("ctor", "data") == "data" and int(M.n_samples) != case["n"]:
+        # constructor plumbing (theorems constructors_build / src_pcamodel_init: n_samples = rows of the data matrix);
+        # not a clause of the property text by itself: a correspondence mismatch, followed by the directed search
+        ctx.mismatch("ctor.n_samples", "model built from %d samples records n_samples = %r" % (case["n"], M.n_samples), rp)
     ctx.count("centre:%s" % case["centre"])
     ctx.count("far-from-origin:%s" % bool(case.get("far_from_origin")))
     ctx.count("rankdef:%s" % (case["rank"] < min(case["d"], case["n"] - (1 if case["centre"] else 0))))
@@ -780,7 +906,7 @@ def run_model_case(ctx, case, rng, cid, lines, expect):
         ctx.fail(site, "raises", "building with max_n_components=%r raised %s" % (arg, type(e).__name__), dict(rp, trim=arg))
         return
     Uf = np.array(fresh.components, dtype=float)
-    same = (Uf.shape == Ut.shape and fresh.n_components == M.n_components and
+    same = (Uf.shape == Ut.shape and fresh.n_components == M.n_components and fresh.n_samples == M.n_samples and
             fresh.n_active_components == M.n_active_components and
             maxabs(np.array(fresh.eigenvalues) - lt) <= TOL * (1 + scale) and
             all(min(maxabs(Uf[i] - Ut[i]), maxabs(Uf[i] + Ut[i])) <= 1e-7 for i in range(min(len(Uf), len(Ut)))) and
@@ -789,9 +915,10 @@ def run_model_case(ctx, case, rng, cid, lines, expect):
             abs(fresh.variance() - M.variance()) <= TOL * (1 + scale))
     ctx.check(same, site, "trim-differs-from-build",
               "trimming to %r gives a model different from building with max_n_components=%r (components %s vs %s, "
-              "eigenvalues %r vs %r, original variance %.12g vs %.12g, noise %.12g vs %.12g)" % (
+              "eigenvalues %r vs %r, original variance %.12g vs %.12g, noise %.12g vs %.12g, n_samples %r vs %r)" % (
                   arg, arg, Ut.shape, Uf.shape, list(lt), list(fresh.eigenvalues), M.original_variance(),
-                  fresh.original_variance(), M.noise_variance(), fresh.noise_variance()), dict(rp, trim=arg))
+                  fresh.original_variance(), M.noise_variance(), fresh.noise_variance(), M.n_samples,
+                  fresh.n_samples), dict(rp, trim=arg))
 
 
 def compare_pca(ctx, cid, reply, ex):
@@ -1483,8 +1610,36 @@ def generated_files():
 
 
 def generated(ctx):
-    ok = common.build_generated(ctx, generated_files(), GEN_TARGETS, GEN_OBLIGATIONS)
-    ctx.count("dispatch-table:" + ("ok" if ok else "BROKEN"))
+    """ONE `lake build` for everything regenerated from the working tree (the dispatch tables and the three translated
+    source files) - each call waits for the shared build lock."""
+    files = generated_files()
+    # the bookkeeping methods, accessors and constructors TRANSLATED from the source text of the working tree
+    # (harness/trans_c10.py): Generated/C10Src.lean, obligations GenProps/C10Src.lean (translated = Core definition, for
+    # all arguments) and GenProps/C10SrcProps.lean (the property's bookkeeping clauses for the translated methods)
+    from . import trans_c10
+    sfiles, reasons = trans_c10.generated_files()
+    ctx.notes["source_translation"] = "ok: %d definitions" % trans_c10.N_DEFS if not reasons else \
+        "untranslatable: " + "; ".join(reasons)
+    # the vector-level methods of linear.py / pca.py (project / instance / reconstruct / project_out, their _vectors
+    # variants, component), once per class through the live MRO: Generated/C10SrcLin.lean, GenProps/C10SrcLin.lean
+    lfiles, lreasons = trans_c10.lin_generated_files()
+    ctx.notes["source_translation_linear"] = "ok: %d definitions" % trans_c10.LIN_DEFS if not lreasons else \
+        "untranslatable: " + "; ".join(lreasons)
+    # menpo/math/decomposition.py: eigenvalue_decomposition (= Core postprocess on the zipped eigen-witness), pca / pcacov
+    # (which operation on which operand in which branch): Generated/C10SrcDec.lean, GenProps/C10SrcDec.lean
+    dfiles, dreasons = trans_c10.dec_generated_files()
+    ctx.notes["source_translation_decomposition"] = "ok: %d definitions" % trans_c10.DEC_DEFS if not dreasons else \
+        "untranslatable: " + "; ".join(dreasons)
+    for f in (sfiles, lfiles, dfiles):
+        files.update(f)
+    ok = common.build_generated(
+        ctx, files, GEN_TARGETS + trans_c10.GEN_TARGETS + trans_c10.LIN_TARGETS + trans_c10.DEC_TARGETS,
+        GEN_OBLIGATIONS + trans_c10.N_OBLIGATIONS + trans_c10.LIN_OBLIGATIONS + trans_c10.DEC_OBLIGATIONS)
+    errs = "" if ok else " ".join(ctx.broken_obligations[-1]["errors"]) + ctx.broken_obligations[-1]["output_tail"]
+    table_ok = ok or not ("GenProps/C10.lean" in errs or "C10Dispatch" in errs)
+    src_ok = ok or not ("C10Src" in errs)
+    ctx.count("dispatch-table:" + ("ok" if table_ok else "BROKEN"))
+    ctx.count("source-translation:" + ("ok" if src_ok else "BROKEN"))
 
 
 # ============================================================================ driver of a run
